@@ -614,7 +614,11 @@ def reader_inputs(ck):
              'C\xb2', 'C\xb9CC\xb9', 'C1CC1 junk', 'C1CC1\t|^1:0|\textra',
              '[C+-]', '[C-+]', '[NH3+-]', 'CC(=O)[O-+]', 'c1cc[n+-]cc1', '[OH-+]>>[OH2]', '[C+5]', '[C+0]', '[C++++]', '[C+++++]', '[C-4]', '[C--]',
              '[CH4:1]>O[Na:2]>[CH4:1]', 'CC>[Na+:3].[OH-]>CC', '[CH3:1][OH:2]>[Na+:3].[OH-]>[CH3:1][OH:2]', '[CH3:1]Br>CC[O-:2].[Na+]>[CH3:1]O',
-             '[CH3:2]O>[Na+:1].[Cl-:7]>[CH3:2]O', '>[Na+:4]>C', 'C>[Na+:4]>']
+             '[CH3:2]O>[Na+:1].[Cl-:7]>[CH3:2]O', '>[Na+:4]>C', 'C>[Na+:4]>',
+             'C.O.N.S.C.O.N.S.C.O.[Na+].[Cl-]>>CC |f:2.3,10.11|', 'C.O.N.S.C.O.N.S.C.O.[Na+].[Cl-]>>CC |f:0.1,10.11|',
+             'C.O>[Na+].[Cl-]>C.O.N.S.C.O.N.S.CC.[K+].[Br-] |f:2.3,11.12|', 'C.O.N.S.C.O.N.S.C.O.[Na+].[Cl-]>>CC |f:10.11,0.1|',
+             'C.O.N.S.C.O.N.S.C.O.[Na+].[Cl-]>>CC |f:0.1,2.10,3.11|', 'C.O.N.S.C.O.N.S.C.O.[Na+].[Cl-]>>CC |f:0.10.11|', 'C.O>>N.S |f:0.1,1.2|',
+             'C.C.C.C.C.C.C.C.C.C.C.C>> |f:0.11,1.10,^1:3|', 'C.C.C.C.C.C.C.C.C.C.C.C>> |^1:11,f:10.11|']
     out += [('fixed', s) for s in fixed]
     lip = corpus.sample(corpus.lipo(), 120 if quick else 1200, ck.seed, 'c03read')
     out += [('corpus', s) for s in lip]
@@ -1164,6 +1168,87 @@ def reaction_oracle(ck, s):
     return True
 
 
+def cx_groups(cx):
+    """the fragment groups of a CXSMILES block |...f:a.b,c.d.e...|, read by the harness: None when there is no well-formed f: block"""
+    m = re.search(r'f:([0-9.,]*)', cx)
+    if not m:
+        return None
+    groups = []
+    for g in m.group(1).split(','):
+        if not re.fullmatch(r'[0-9]+(\.[0-9]+)+', g):
+            break                      # the block ends at the first thing that is not a group (what follows is another CX field)
+        groups.append(sorted(int(x) for x in g.split('.')))
+    return groups or None
+
+
+def cx_reaction_oracle(ck, s):
+    """CXSMILES fragment grouping, independent of smiles.py: the groups are read by the harness, molecules of one role named in a group
+    are joined (at the place of the smallest index), a group across roles or beyond the molecule count is ignored, repeated indices
+    cancel all grouping; the reaction built must hold exactly the resulting molecules, each read alone"""
+    from chython.containers import MoleculeContainer, ReactionContainer
+    parts = s.split()
+    if len(parts) != 2 or parts[0].count('>') != 2 or not (parts[1].startswith('|') and parts[1].endswith('|')) or '^' in parts[1]:
+        return False
+    groups = cx_groups(parts[1])
+    if groups is None:
+        return False
+    roles = [[x for x in part.split('.') if x] for part in parts[0].split('>')]      # reactants, reagents, products
+    flat = [(r, p) for r, ps in enumerate(roles) for p in ps]
+    n = len(flat)
+    used = [i for g in groups for i in g]
+    slots = [[p] for _, p in flat]
+    if len(set(used)) == len(used):
+        for g in groups:
+            if max(g) < n and len({flat[i][0] for i in g}) == 1:
+                slots[g[0]] = [flat[i][1] for i in g]
+                for i in g[1:]:
+                    slots[i] = None
+    want = [[], [], []]
+    for (r, _), sl in zip(flat, slots):
+        if sl is not None:
+            want[r].append('.'.join(sl))
+    alone = []
+    for ps in want:
+        row = []
+        for piece in ps:
+            m, e = classify(piece)
+            if not isinstance(m, MoleculeContainer):
+                return False
+            row.append([a.atomic_symbol for _, a in m.atoms()])
+        alone.append(row)
+    rxn, e = classify(s)
+    ck.case(('cx-groups', s), nontrivial=any(len(g) > 1 for g in groups))
+    ck.count('cx-fragment-oracle:compared')
+    if not isinstance(rxn, ReactionContainer):
+        got = f'{type(e).__name__}: {e}'
+    else:
+        got = [[[a.atomic_symbol for _, a in m.atoms()] for m in ms] for ms in (rxn.reactants, rxn.reagents, rxn.products)]
+    if got != alone:
+        ck.counterexample(f'cx-fragments:{s}', 'CXSMILES fragment groups are not applied as written', {'smiles': s, 'groups': groups},
+                          got, alone, 'fragment groups read by the harness; molecules read alone',
+                          replay_py=f"from chython import smiles\nr = smiles({s!r})\nprint(r, [len(m) for m in r.molecules()])")
+    return True
+
+
+def gen_cx_reaction(rng):
+    """reactions with many one- and two-atom molecules and an f: block whose groups use one- and two-digit indices"""
+    def mols(k):
+        return [rng.choice(['C', 'O', 'N', '[Na+]', '[Cl-]', 'CC', '[K+]', 'Br', '[OH-]', 'S']) for _ in range(k)]
+    r, g, p = mols(rng.randint(1, 7)), mols(rng.randint(0, 4)), mols(rng.randint(1, 7))
+    n = len(r) + len(g) + len(p)
+    bounds = [(0, len(r)), (len(r), len(r) + len(g)), (len(r) + len(g), n)]
+    groups = []
+    for _ in range(rng.randint(1, 3)):
+        lo, hi = rng.choice(bounds) if rng.random() < 0.85 else (0, n + 2)
+        if hi - lo < 2:
+            continue
+        groups.append(rng.sample(range(lo, hi), rng.randint(2, min(3, hi - lo))))
+    if not groups:
+        groups = [[0, n - 1]]
+    cx = 'f:' + ','.join('.'.join(str(i) for i in gr) for gr in groups)
+    return '.'.join(r) + '>' + '.'.join(g) + '>' + '.'.join(p) + ' |' + cx + '|'
+
+
 def gen_mapped_reaction(rng):
     """small reactions with atom maps in all three roles (reagent maps above / below / equal to the others), unmapped atoms around"""
     def mol(maps):
@@ -1306,6 +1391,8 @@ def directed_search(ck, seeds):
             if e is not None and not isinstance(e, ValueError):
                 report_crash(ck, s, kw, e)
         rdkit_compare(ck, s.split()[0] if s.split() else s, 'directed')
+        if 'f:' in s:
+            cx_reaction_oracle(ck, s)
         if s.count('>') == 2:
             reaction_oracle(ck, s.split()[0] if s.split() else s)
         elif '[' in s and ' ' not in s:
@@ -1395,6 +1482,18 @@ def search(ck):
     for _ in range(150 if quick else 2000):
         n_rx += reaction_oracle(ck, gen_reaction(rng).split()[0])
     ck.extra['reaction_oracle_compared'] = n_rx
+    # (5) CXSMILES fragment groups (one- and two-digit molecule indices, several groups, groups across roles, collisions)
+    n_cx = 0
+    fixed_cx = ['C.O.N.S.C.O.N.S.C.O.[Na+].[Cl-]>>CC |f:2.3,10.11|', 'C.O.N.S.C.O.N.S.C.O.[Na+].[Cl-]>>CC |f:0.1,10.11|',
+                'C.O>[Na+].[Cl-]>C.O.N.S.C.O.N.S.CC.[K+].[Br-] |f:2.3,11.12|', 'C.O.N.S.C.O.N.S.C.O.[Na+]>>[Cl-].CC |f:10.11|',
+                'C.O.N.S.C.O.N.S.C.O.[Na+].[Cl-]>>CC |f:10.11,0.1|', 'C.O.N.S.C.O.N.S.C.O.[Na+].[Cl-]>>CC |f:0.10.11|',
+                'C.O.N.S.C.O.N.S.C.O.[Na+].[Cl-]>>CC |f:0.1,2.10,3.11|', '[Na+].[Cl-]>>[Na+].[Cl-] |f:0.1,2.3|', 'C.O>>N |f:0.1|', 'C.O>>N |f:0.2|',
+                'C.O>>N.S |f:0.1,1.2|', 'C.O>>N |f:0.5|', 'C.O.N>> |f:0.1|', '>>C.O.N |f:1.2|', 'C>O.N>S |f:1.2|']
+    for s in fixed_cx:
+        n_cx += cx_reaction_oracle(ck, s)
+    for _ in range(400 if quick else 5000):
+        n_cx += cx_reaction_oracle(ck, gen_cx_reaction(rng))
+    ck.extra['cx_fragment_oracle_compared'] = n_cx
     return True
 
 
